@@ -2,6 +2,7 @@
 //! nothing written, or part-way with exactly the reported ids written) or to park forever
 //! right after the inner write (a crash inside a request).
 
+use std::sync::atomic::{AtomicBool, Ordering};
 use std::sync::Arc;
 
 use datacake_crdt::{HLCTimestamp, Key};
@@ -26,11 +27,13 @@ pub struct FaultyStore {
     pub plan: Mutex<Plan>,
     pub parked: Notify,
     pub calls: Mutex<Vec<String>>,
+    /// while set, every mutating call fails with nothing written
+    pub fail_all: Arc<AtomicBool>,
 }
 
 impl FaultyStore {
     pub fn on(inner: Arc<MemStore>) -> Self {
-        Self { inner, plan: Mutex::new(Plan::Ok), parked: Notify::new(), calls: Mutex::new(vec![]) }
+        Self { inner, plan: Mutex::new(Plan::Ok), parked: Notify::new(), calls: Mutex::new(vec![]), fail_all: Arc::new(AtomicBool::new(false)) }
     }
 
     pub fn set_plan(&self, p: Plan) {
@@ -38,6 +41,9 @@ impl FaultyStore {
     }
 
     fn take_plan(&self) -> Plan {
+        if self.fail_all.load(Ordering::SeqCst) {
+            return Plan::Fail(vec![]);
+        }
         std::mem::take(&mut *self.plan.lock())
     }
 }
